@@ -45,8 +45,8 @@ def run(chk):
             chk.tie_broken("optimize: model and code disagree", {"input": [show_line(l) for l in v],
                            "real": [show_line(l) for l in r.get("code", {}).get("lines", [])], "model": a[:1500]})
     # ---- knowledge probes: LDr op ; <instructions> ; LDr op ; observer — tie AND execution of the really optimised vector ----
-    for it in range(chk.scale(2500, 60000)):
-        v = gasm.probe_vector(rng)
+    for it in range(chk.scale(3200, 70000)):
+        v = gasm.compare_probe(rng) if it % 5 == 4 else gasm.probe_vector(rng)
         t = toks_of_lines(v)
         r = h.req("opt " + t); a = m.req("opt " + t)
         chk.case(key=t, nontrivial=r.get("count", 0) > 0)
